@@ -653,6 +653,34 @@ func selfcheck(t *testing.T, c core.Cfg, part *core.Partial) {
 			part.Violations = append(part.Violations, core.ViolationRec{Class: v.Class, Detail: v.Detail, Replay: p})
 		}
 	}
+	if c.Property == "C06" && c.Mode != "race" && c.Worker == 5%int(core.EnvInt("VERIF_WORKERS", 1)) {
+		// foreign files cut down to nothing, or to white space: no format can be detected
+		k := 0
+		for _, path := range []string{"f1.yaml", "f1.json", "f1.proto", "f1.dat", "f1.yml"} {
+			for _, text := range []string{"", "\n\n  \n", " "} {
+				k++
+				w := &Workload{Family: "plain", Template: fmt.Sprintf("selfcheck-blank-foreign-%d", k), Files: []*FileSpec{
+					{ID: 0, Path: "f0.sysl", Kind: "sysl", Imports: []ImportSpec{{To: 1, Spell: path, As: foreignAs(1)}, {To: 2, Spell: "f2"}}},
+					{ID: 1, Path: path, Kind: "dat"},
+					{ID: 2, Path: "f2.sysl", Kind: "sysl"}}}
+				for _, f := range w.Files {
+					f.Text = render(w, f)
+				}
+				w.Files[1].Text = text
+				w.Faults = []Fault{{File: 1, Kind: "undetectable-format", Certain: true}}
+				o := Execute(t, w, core.First{}, 100000)
+				part.Counters.Inc("selfcheck_blank_foreign_file")
+				for _, v := range Check(w, Model(w), o, nil, true) {
+					p := writeReplay(c, found{v: v, w: w, picks: o.Picks, o: o}, true, 0)
+					part.Violations = append(part.Violations, core.ViolationRec{Class: v.Class, Detail: v.Detail, Replay: p})
+					break
+				}
+				if len(part.Violations) > 0 {
+					break
+				}
+			}
+		}
+	}
 	if c.Property == "C06" && c.Mode != "race" && c.Worker == 4%int(core.EnvInt("VERIF_WORKERS", 1)) {
 		// compiled-model imports that are well-formed JSON / text-proto of some other schema:
 		// every variant once per run (the random plans reach them only a few dozen times)
